@@ -1,3 +1,789 @@
-//! C17 — bounded checks (to be written)
-use crate::ctx::Ctx;
-pub fn run(_ctx: &mut Ctx) {}
+//! C17 — acyclicity, monogamy and degree queries decide their definitions, totally.
+//!
+//! Oracles (plain loops over Vec, written from the property statement):
+//!  * acyclic    : one-step relation u -> v iff some hyperedge has u among its sources and v among its
+//!                 targets; transitive closure by Warshall; acyclic iff no node reaches itself
+//!                 (path of length >= 1).
+//!  * monogamous : both interface lists without repetition, and for every node v
+//!                 (v is an input  => in-degree 0, otherwise in-degree 1) and
+//!                 (v is an output => out-degree 0, otherwise out-degree 1).
+//!                 (This is the exclusive reading, which the library's doc comment and its own test
+//!                 `test_is_monogamous_false_boundary_has_degree` pin down; the inclusive reading
+//!                 "in-degree 1, or in-degree 0 and an input" differs only for interface nodes of
+//!                 degree 1 — those inputs are counted in the notes.)
+//!  * degrees    : number of positions (with multiplicity) in which the node occurs in all target
+//!                 lists (in-degree) / all source lists (out-degree).
+//! Every call of the library is wrapped in `guard`: a panic is a violation of the "totally" clause.
+use crate::ctx::{guard, Ctx, Rng};
+use crate::model::*;
+use serde_json::{json, Value};
+use std::sync::atomic::{AtomicU64, Ordering};
+
+type Check = fn(&mut Ctx, &Value);
+const CHECKS: &[(&str, Check)] = &[("acyclic", chk_acyclic), ("monogamous", chk_monogamous), ("degrees", chk_degrees)];
+
+static AMBIGUOUS: AtomicU64 = AtomicU64::new(0);
+static MONO_TRUE: AtomicU64 = AtomicU64::new(0);
+static ACYC_TRUE: AtomicU64 = AtomicU64::new(0);
+static ACYC_FALSE: AtomicU64 = AtomicU64::new(0);
+
+// ------------------------------------------------------------------------------------------------
+// watchdog: "returns an answer" includes termination.  The checks announce every library call
+// sequence (`enter`); if the same one is still running after LIMIT_S seconds, the watchdog writes a
+// report (same shape as Ctx::report) naming the input and the violated totality clause and exits 1.
+// ------------------------------------------------------------------------------------------------
+mod watchdog {
+    use serde_json::{json, Value};
+    use std::sync::atomic::{AtomicU64, Ordering};
+    use std::sync::{Mutex, Once};
+    use std::time::{Duration, Instant};
+
+    pub const LIMIT_S: u64 = 20;
+    static CUR: Mutex<Option<(String, String, String)>> = Mutex::new(None);
+    static TICK: AtomicU64 = AtomicU64::new(0);
+    static FAILS: Mutex<Vec<Value>> = Mutex::new(Vec::new());
+    static START: Once = Once::new();
+
+    pub fn start(property: &str, tier: &str, seed: u64, replay: bool) {
+        let (property, tier) = (property.to_string(), tier.to_string());
+        START.call_once(move || {
+            std::thread::spawn(move || {
+                let t0 = Instant::now();
+                let mut last = (u64::MAX, Instant::now());
+                loop {
+                    std::thread::sleep(Duration::from_millis(250));
+                    let tick = TICK.load(Ordering::SeqCst);
+                    if tick != last.0 {
+                        last = (tick, Instant::now());
+                        continue;
+                    }
+                    if last.1.elapsed().as_secs() < LIMIT_S {
+                        continue;
+                    }
+                    let cur = CUR.lock().map(|g| g.clone()).unwrap_or(None);
+                    if let Some((check, clause, input)) = cur {
+                        let input: Value = serde_json::from_str(&input).unwrap_or(Value::Null);
+                        let observed = format!("no answer within {} s: the call did not return", LIMIT_S);
+                        if replay {
+                            println!("replay: check={} clause={} input={} observed={} expected={}", check, clause, input, json!(observed), json!("an answer"));
+                        } else {
+                            let mut fails: Vec<Value> = FAILS.lock().map(|g| g.clone()).unwrap_or_default();
+                            fails.insert(0, json!({"check": check, "clause": clause, "input": input, "observed": observed, "expected": "an answer"}));
+                            let nfail = fails.len();
+                            let rep = json!({
+                                "property": property, "tier": tier, "seed": seed,
+                                "evaluations": tick, "distinct_nontrivial": 0, "per_check": {},
+                                "failures": fails,
+                                "samples": [], "notes": ["run aborted by the termination watchdog; counts are incomplete"],
+                                "wall_s": t0.elapsed().as_secs_f64(),
+                            });
+                            let args: Vec<String> = std::env::args().collect();
+                            if args.len() >= 6 && args[1] == "run" {
+                                let _ = std::fs::write(&args[5], serde_json::to_string_pretty(&rep).unwrap());
+                            }
+                            println!("bounded {}: aborted after {} evaluations, {} failures (first: check {} clause {}: call did not return)", property, tick, nfail, check, clause);
+                        }
+                        std::process::exit(1);
+                    }
+                }
+            });
+        });
+    }
+    pub fn record(f: Value) {
+        if let Ok(mut g) = FAILS.lock() {
+            if g.len() < 49 {
+                g.push(f);
+            }
+        }
+    }
+    /// announce the library calls made for one input
+    pub fn enter(check: &str, clause: &str, input: &Value) {
+        if let Ok(mut g) = CUR.lock() {
+            *g = Some((check.to_string(), clause.to_string(), input.to_string()));
+        }
+        TICK.fetch_add(1, Ordering::SeqCst);
+    }
+    pub fn leave() {
+        if let Ok(mut g) = CUR.lock() {
+            *g = None;
+        }
+        TICK.fetch_add(1, Ordering::SeqCst);
+    }
+}
+
+/// report a violated clause (and mirror it for the watchdog, whose abort report would otherwise lose it)
+fn fail(ctx: &mut Ctx, check: &str, clause: &str, input: &Value, observed: Value, expected: Value) {
+    watchdog::record(json!({"check": check, "clause": clause, "input": input, "observed": observed, "expected": expected}));
+    ctx.fail(check, clause, input, observed, expected);
+}
+
+// ------------------------------------------------------------------------------------------------
+// oracles
+// ------------------------------------------------------------------------------------------------
+/// r[u][v] iff there is a directed path of length >= 1 from u to v
+fn reach(m: &M) -> Vec<Vec<bool>> {
+    let n = m.w.len();
+    let mut r = vec![vec![false; n]; n];
+    for e in 0..m.x.len() {
+        for &u in &m.src[e] {
+            for &v in &m.tgt[e] {
+                r[u][v] = true;
+            }
+        }
+    }
+    for k in 0..n {
+        for i in 0..n {
+            if r[i][k] {
+                for j in 0..n {
+                    if r[k][j] {
+                        r[i][j] = true;
+                    }
+                }
+            }
+        }
+    }
+    r
+}
+
+fn oracle_acyclic(m: &M) -> bool {
+    let r = reach(m);
+    (0..m.w.len()).all(|u| !r[u][u])
+}
+
+fn count_in(ls: &[Vec<usize>], v: usize) -> usize {
+    let mut c = 0;
+    for l in ls {
+        for &u in l {
+            if u == v {
+                c += 1;
+            }
+        }
+    }
+    c
+}
+
+fn has_repeat(l: &[usize]) -> bool {
+    for i in 0..l.len() {
+        for j in 0..i {
+            if l[i] == l[j] {
+                return true;
+            }
+        }
+    }
+    false
+}
+
+/// (exclusive reading, inclusive reading)
+fn oracle_monogamous(m: &M) -> (bool, bool) {
+    if has_repeat(&m.s) || has_repeat(&m.t) {
+        return (false, false);
+    }
+    let (mut strict, mut loose) = (true, true);
+    for v in 0..m.w.len() {
+        let indeg = count_in(&m.tgt, v);
+        let outdeg = count_in(&m.src, v);
+        let is_in = m.s.contains(&v);
+        let is_out = m.t.contains(&v);
+        let in_ok = if is_in { indeg == 0 } else { indeg == 1 };
+        let out_ok = if is_out { outdeg == 0 } else { outdeg == 1 };
+        strict = strict && in_ok && out_ok;
+        let in_l = indeg == 1 || (indeg == 0 && is_in);
+        let out_l = outdeg == 1 || (outdeg == 0 && is_out);
+        loose = loose && in_l && out_l;
+    }
+    (strict, loose)
+}
+
+// ------------------------------------------------------------------------------------------------
+// checks
+// ------------------------------------------------------------------------------------------------
+fn decode(input: &Value) -> Option<M> {
+    let m = M::from_json(input.get("m")?)?;
+    if m.valid() {
+        Some(m)
+    } else {
+        None
+    }
+}
+
+/// input: {"m": model}
+fn chk_acyclic(ctx: &mut Ctx, input: &Value) {
+    let m = match decode(input) {
+        Some(m) => m,
+        None => return,
+    };
+    let has_step = (0..m.x.len()).any(|e| !m.src[e].is_empty() && !m.tgt[e].is_empty());
+    ctx.case("acyclic", input, has_step);
+    watchdog::enter("acyclic", "C17.acyclic-total", input);
+    let expected = oracle_acyclic(&m);
+    if expected {
+        ACYC_TRUE.fetch_add(1, Ordering::Relaxed);
+    } else {
+        ACYC_FALSE.fetch_add(1, Ordering::Relaxed);
+    }
+    let f = m.to_strict();
+    // the hypergraph query
+    match guard(|| f.h.is_acyclic()) {
+        Err(p) => fail(ctx, "acyclic", "C17.acyclic-total", input, json!(format!("Hypergraph::is_acyclic panicked: {}", p)), json!(expected)),
+        Ok(got) => {
+            if got != expected {
+                fail(ctx, "acyclic", "C17.acyclic-iff", input, json!({"Hypergraph::is_acyclic": got}), json!(expected));
+            }
+        }
+    }
+    // the open hypergraph query
+    match guard(|| f.is_acyclic()) {
+        Err(p) => fail(ctx, "acyclic", "C17.acyclic-total", input, json!(format!("OpenHypergraph::is_acyclic panicked: {}", p)), json!(expected)),
+        Ok(got) => {
+            if got != expected {
+                fail(ctx, "acyclic", "C17.acyclic-iff", input, json!({"OpenHypergraph::is_acyclic": got}), json!(expected));
+            }
+        }
+    }
+}
+
+/// input: {"m": model}
+fn chk_monogamous(ctx: &mut Ctx, input: &Value) {
+    let m = match decode(input) {
+        Some(m) => m,
+        None => return,
+    };
+    ctx.case("monogamous", input, !m.w.is_empty());
+    watchdog::enter("monogamous", "C17.monogamous-total", input);
+    let (expected, loose) = oracle_monogamous(&m);
+    if expected != loose {
+        AMBIGUOUS.fetch_add(1, Ordering::Relaxed);
+    }
+    if expected {
+        MONO_TRUE.fetch_add(1, Ordering::Relaxed);
+    }
+    let f = m.to_strict();
+    match guard(|| f.is_monogamous()) {
+        Err(p) => fail(ctx, "monogamous", "C17.monogamous-total", input, json!(format!("is_monogamous panicked: {}", p)), json!(expected)),
+        Ok(got) => {
+            if got != expected {
+                fail(ctx, "monogamous", "C17.monogamous-iff", input, json!(got), json!({"expected": expected, "inclusive_reading": loose}));
+            }
+        }
+    }
+}
+
+/// input: {"m": model}   (every node index is queried)
+fn chk_degrees(ctx: &mut Ctx, input: &Value) {
+    let m = match decode(input) {
+        Some(m) => m,
+        None => return,
+    };
+    let has_inc = m.src.iter().chain(m.tgt.iter()).any(|l| !l.is_empty());
+    ctx.case("degrees", input, !m.w.is_empty() && has_inc);
+    watchdog::enter("degrees", "C17.degree-total", input);
+    let f = m.to_strict();
+    for v in 0..m.w.len() {
+        let ein = count_in(&m.tgt, v);
+        let eout = count_in(&m.src, v);
+        match guard(|| f.h.in_degree(v)) {
+            Err(p) => fail(ctx, "degrees", "C17.degree-total", input, json!({"node": v, "in_degree panicked": p}), json!(ein)),
+            Ok(got) => {
+                if got != ein {
+                    fail(ctx, "degrees", "C17.in-degree-count", input, json!({"node": v, "in_degree": got}), json!(ein));
+                }
+            }
+        }
+        match guard(|| f.h.out_degree(v)) {
+            Err(p) => fail(ctx, "degrees", "C17.degree-total", input, json!({"node": v, "out_degree panicked": p}), json!(eout)),
+            Ok(got) => {
+                if got != eout {
+                    fail(ctx, "degrees", "C17.out-degree-count", input, json!({"node": v, "out_degree": got}), json!(eout));
+                }
+            }
+        }
+    }
+}
+
+fn all_checks(ctx: &mut Ctx, m: &M) {
+    let input = json!({"m": m.json()});
+    chk_acyclic(ctx, &input);
+    chk_monogamous(ctx, &input);
+    chk_degrees(ctx, &input);
+}
+
+// ------------------------------------------------------------------------------------------------
+// generators
+// ------------------------------------------------------------------------------------------------
+fn perm(r: &mut Rng, n: usize) -> Vec<usize> {
+    let mut p: Vec<usize> = (0..n).collect();
+    for i in (1..n).rev() {
+        let j = r.below(i + 1);
+        p.swap(i, j);
+    }
+    p
+}
+
+fn shuffle<T>(r: &mut Rng, v: &mut Vec<T>) {
+    for i in (1..v.len()).rev() {
+        let j = r.below(i + 1);
+        v.swap(i, j);
+    }
+}
+
+/// rename node i to p[i] and put the hyperedges in a random order
+fn scramble(r: &mut Rng, m: &M) -> M {
+    let n = m.w.len();
+    let p = perm(r, n);
+    let mut w = vec![0u8; n];
+    for i in 0..n {
+        w[p[i]] = m.w[i];
+    }
+    let mp = |l: &Vec<usize>| l.iter().map(|&v| p[v]).collect::<Vec<_>>();
+    let order = perm(r, m.x.len());
+    M {
+        w,
+        x: order.iter().map(|&e| m.x[e]).collect(),
+        src: order.iter().map(|&e| mp(&m.src[e])).collect(),
+        tgt: order.iter().map(|&e| mp(&m.tgt[e])).collect(),
+        s: mp(&m.s),
+        t: mp(&m.t),
+    }
+}
+
+/// all lists over 0..n of length <= maxlen
+fn lists(n: usize, maxlen: usize) -> Vec<Vec<usize>> {
+    let mut out = vec![vec![]];
+    let mut last: Vec<Vec<usize>> = vec![vec![]];
+    for _ in 0..maxlen {
+        let mut next = vec![];
+        for l in &last {
+            for v in 0..n {
+                let mut l2 = l.clone();
+                l2.push(v);
+                next.push(l2);
+            }
+        }
+        out.extend(next.iter().cloned());
+        last = next;
+    }
+    out
+}
+
+/// every hypergraph with n nodes and exactly k hyperedges whose source/target lists come from `ls`
+fn for_each_hypergraph(n: usize, k: usize, ls: &[Vec<usize>], f: &mut dyn FnMut(&M)) {
+    let mut idx = vec![0usize; 2 * k];
+    loop {
+        let m = M {
+            w: vec![0; n],
+            x: vec![10; k],
+            src: (0..k).map(|e| ls[idx[2 * e]].clone()).collect(),
+            tgt: (0..k).map(|e| ls[idx[2 * e + 1]].clone()).collect(),
+            s: vec![],
+            t: vec![],
+        };
+        f(&m);
+        // odometer
+        let mut p = 0;
+        loop {
+            if p == idx.len() {
+                return;
+            }
+            idx[p] += 1;
+            if idx[p] < ls.len() {
+                break;
+            }
+            idx[p] = 0;
+            p += 1;
+        }
+    }
+}
+
+/// a monogamous diagram by construction: every node is produced once (or is an input) and consumed
+/// once (or is an output); `feedback` edges turn an output/input pair into a (possibly cyclic) wire
+fn gen_monogamous(r: &mut Rng, max_edges: usize) -> M {
+    let mut m = M::empty();
+    let mut avail: Vec<usize> = vec![];
+    let ni = r.range(0, 3);
+    for _ in 0..ni {
+        m.w.push(r.below(2) as u8);
+        avail.push(m.w.len() - 1);
+    }
+    m.s = avail.clone();
+    let k = r.range(0, max_edges);
+    for _ in 0..k {
+        let a = r.range(0, avail.len().min(3));
+        let mut ss = vec![];
+        for _ in 0..a {
+            let i = r.below(avail.len());
+            ss.push(avail.swap_remove(i));
+        }
+        let b = r.range(0, 3);
+        let mut tt = vec![];
+        for _ in 0..b {
+            m.w.push(r.below(2) as u8);
+            tt.push(m.w.len() - 1);
+        }
+        avail.extend(tt.iter().cloned());
+        m.x.push(10 + r.below(2) as u8);
+        m.src.push(ss);
+        m.tgt.push(tt);
+    }
+    m.t = avail;
+    shuffle(r, &mut m.t);
+    shuffle(r, &mut m.s);
+    // feedback wires
+    let fb = r.below(3);
+    for _ in 0..fb {
+        if m.s.is_empty() || m.t.is_empty() {
+            break;
+        }
+        let u = m.s.swap_remove(r.below(m.s.len()));
+        let v = m.t.swap_remove(r.below(m.t.len()));
+        m.x.push(12);
+        m.src.push(vec![v]);
+        m.tgt.push(vec![u]);
+    }
+    scramble(r, &m)
+}
+
+fn mutate(r: &mut Rng, m: &mut M) {
+    let n = m.w.len();
+    match r.below(11) {
+        0 => {
+            if !m.s.is_empty() {
+                let v = m.s[r.below(m.s.len())];
+                let at = r.below(m.s.len() + 1);
+                m.s.insert(at, v);
+            }
+        }
+        1 => {
+            if !m.t.is_empty() {
+                let v = m.t[r.below(m.t.len())];
+                let at = r.below(m.t.len() + 1);
+                m.t.insert(at, v);
+            }
+        }
+        2 => {
+            if !m.s.is_empty() {
+                m.s.remove(r.below(m.s.len()));
+            }
+        }
+        3 => {
+            if !m.t.is_empty() {
+                m.t.remove(r.below(m.t.len()));
+            }
+        }
+        4 => m.w.push(0), // isolated node off the interfaces
+        5 => {
+            // isolated node on both interfaces (a bare wire): stays monogamous
+            m.w.push(1);
+            m.s.push(n);
+            m.t.push(n);
+        }
+        6 => {
+            if !m.x.is_empty() && n > 0 {
+                let e = r.below(m.x.len());
+                let v = r.below(n);
+                if r.chance(1, 2) {
+                    m.src[e].push(v)
+                } else {
+                    m.tgt[e].push(v)
+                }
+            }
+        }
+        7 => {
+            if !m.x.is_empty() && n > 0 {
+                let e = r.below(m.x.len());
+                let l = if r.chance(1, 2) { &mut m.src[e] } else { &mut m.tgt[e] };
+                if !l.is_empty() {
+                    let i = r.below(l.len());
+                    l[i] = r.below(n);
+                }
+            }
+        }
+        8 => {
+            if n > 0 {
+                let v = r.below(n);
+                if r.chance(1, 2) {
+                    m.s.push(v)
+                } else {
+                    m.t.push(v)
+                }
+            }
+        }
+        9 => {
+            // dangling node: on one interface only, touched by nothing
+            m.w.push(0);
+            if r.chance(1, 2) {
+                m.s.push(n)
+            } else {
+                m.t.push(n)
+            }
+        }
+        _ => {
+            // drop an incidence
+            if !m.x.is_empty() {
+                let e = r.below(m.x.len());
+                let l = if r.chance(1, 2) { &mut m.src[e] } else { &mut m.tgt[e] };
+                if !l.is_empty() {
+                    let i = r.below(l.len());
+                    l.remove(i);
+                }
+            }
+        }
+    }
+}
+
+/// hyperedges only go "upwards" in a hidden ranking: acyclic by construction; optional extras
+fn gen_dag(r: &mut Rng, max_nodes: usize, max_edges: usize, max_arity: usize) -> M {
+    let n = r.range(1, max_nodes);
+    let k = r.range(0, max_edges);
+    let mut m = M { w: (0..n).map(|_| r.below(2) as u8).collect(), ..M::empty() };
+    for _ in 0..k {
+        let cut = r.range(0, n); // sources below cut, targets at or above
+        let a = if cut == 0 { 0 } else { r.range(0, max_arity) };
+        let b = if cut == n { 0 } else { r.range(0, max_arity) };
+        m.x.push(10);
+        m.src.push((0..a).map(|_| r.below(cut)).collect());
+        m.tgt.push((0..b).map(|_| cut + r.below(n - cut)).collect());
+    }
+    // interfaces: arbitrary
+    let (ls, lt) = (r.range(0, 3), r.range(0, 3));
+    m.s = r.vec_below(ls, n);
+    m.t = r.vec_below(lt, n);
+    m
+}
+
+/// a chain v0 -> v1 -> ... -> v(len) of unary hyperedges, plus extras
+fn gen_chain(r: &mut Rng, len: usize, close_to: Option<usize>, isolated: usize, mult: usize) -> M {
+    let n = len + 1;
+    let mut m = M { w: vec![0; n + isolated], ..M::empty() };
+    for i in 0..len {
+        m.x.push(10);
+        m.src.push(vec![i; mult]);
+        m.tgt.push(vec![i + 1; mult]);
+    }
+    if let Some(j) = close_to {
+        m.x.push(11);
+        m.src.push(vec![len]);
+        m.tgt.push(vec![j.min(len)]);
+    }
+    m.s = vec![0];
+    m.t = vec![len];
+    scramble(r, &m)
+}
+
+/// few nodes, connections of high multiplicity (repeated incidences and parallel hyperedges)
+fn gen_fat(r: &mut Rng) -> M {
+    let n = r.range(1, 3);
+    let k = r.range(1, 4);
+    let mut m = M { w: vec![0; n], ..M::empty() };
+    let forward_only = r.chance(1, 2);
+    for _ in 0..k {
+        let (mut a, mut b) = (r.below(n), r.below(n));
+        if forward_only && n > 1 {
+            // keep it acyclic: a < b
+            while a == b {
+                b = r.below(n);
+            }
+            if a > b {
+                std::mem::swap(&mut a, &mut b);
+            }
+        }
+        let p = r.range(0, 7);
+        let q = r.range(0, 7);
+        m.x.push(10);
+        m.src.push(vec![a; p]);
+        m.tgt.push(vec![b; q]);
+    }
+    let (ls, lt) = (r.range(0, 2), r.range(0, 2));
+    m.s = r.vec_below(ls, n);
+    m.t = r.vec_below(lt, n);
+    m
+}
+
+const LARGE: Bounds = Bounds { nodes: 8, edges: 6, arity: 4, iface: 5, labels: 2 };
+
+fn own_corners() -> Vec<M> {
+    let e = M::empty;
+    vec![
+        // nodes only, nothing else (isolated nodes, not on any interface)
+        M { w: vec![0, 0, 0], ..e() },
+        // one isolated node next to a monogamous operation
+        M { w: vec![0, 1, 0], x: vec![10], src: vec![vec![0]], tgt: vec![vec![1]], s: vec![0], t: vec![1], ..e() },
+        // isolated node that is a bare wire (monogamous)
+        M { w: vec![0, 1, 0], x: vec![10], src: vec![vec![0]], tgt: vec![vec![1]], s: vec![0, 2], t: vec![2, 1], ..e() },
+        // dangling: input only
+        M { w: vec![0], s: vec![0], ..e() },
+        // dangling: output only
+        M { w: vec![0], t: vec![0], ..e() },
+        // self loop on an interior node: monogamous and cyclic
+        M { w: vec![0], x: vec![10], src: vec![vec![0]], tgt: vec![vec![0]], ..e() },
+        // interface node with degree 1 on the same side (exclusive vs inclusive reading)
+        M { w: vec![0], x: vec![10], src: vec![vec![0]], tgt: vec![vec![0]], s: vec![0], t: vec![0], ..e() },
+        M { w: vec![0, 1], x: vec![10], src: vec![vec![0]], tgt: vec![vec![1]], s: vec![0, 1], t: vec![1], ..e() },
+        // multiplicity 3, 5, 9 between two nodes
+        M { w: vec![0, 0], x: vec![10], src: vec![vec![0, 0, 0]], tgt: vec![vec![1]], s: vec![0], t: vec![1], ..e() },
+        M { w: vec![0, 0], x: vec![10], src: vec![vec![0]], tgt: vec![vec![1, 1, 1, 1, 1]], s: vec![0], t: vec![1], ..e() },
+        M { w: vec![0, 0], x: vec![10], src: vec![vec![0, 0, 0]], tgt: vec![vec![1, 1, 1]], s: vec![0], t: vec![1], ..e() },
+        // five parallel unary hyperedges 0 -> 1
+        M { w: vec![0, 0], x: vec![10; 5], src: vec![vec![0]; 5], tgt: vec![vec![1]; 5], s: vec![0], t: vec![1], ..e() },
+        // parallel + repeated, with an isolated node, and the reverse edge making a cycle
+        M { w: vec![0, 0, 0], x: vec![10; 4], src: vec![vec![0, 0], vec![0, 0], vec![0], vec![1]], tgt: vec![vec![1, 1], vec![1, 1, 1], vec![1], vec![0]], ..e() },
+        // zero-arity hyperedges with and without nodes
+        M { w: vec![0], x: vec![10, 10], src: vec![vec![], vec![]], tgt: vec![vec![], vec![]], s: vec![0], t: vec![0], ..e() },
+        M { x: vec![10, 11, 10], src: vec![vec![]; 3], tgt: vec![vec![]; 3], ..e() },
+        // sources-only and targets-only hyperedges
+        M { w: vec![0, 0], x: vec![10, 11], src: vec![vec![0], vec![]], tgt: vec![vec![], vec![1]], s: vec![0], t: vec![1], ..e() },
+        M { w: vec![0, 0], x: vec![10, 11], src: vec![vec![0, 1], vec![]], tgt: vec![vec![], vec![0, 1]], ..e() },
+        // diamond: 0 -> {1,2}, 1 -> 3, 2 -> 3' with join through a binary op
+        M { w: vec![0; 4], x: vec![10, 11, 12], src: vec![vec![0], vec![1], vec![2, 3]], tgt: vec![vec![1, 2], vec![3], vec![]], s: vec![0], ..e() },
+        // node reachable along paths of different length: 0->1, 1->2, 0->2, 2->3
+        M { w: vec![0; 4], x: vec![10; 4], src: vec![vec![0], vec![1], vec![0], vec![2]], tgt: vec![vec![1], vec![2], vec![2], vec![3]], s: vec![0], t: vec![3], ..e() },
+        // a cycle not reachable from any root, next to an acyclic part
+        M { w: vec![0; 5], x: vec![10; 4], src: vec![vec![0], vec![2], vec![3], vec![4]], tgt: vec![vec![1], vec![3], vec![4], vec![2]], s: vec![0], t: vec![1], ..e() },
+        // a cycle downstream of a root, with a tail hanging off the cycle
+        M { w: vec![0; 5], x: vec![10; 5], src: vec![vec![0], vec![1], vec![2], vec![3], vec![2]], tgt: vec![vec![1], vec![2], vec![3], vec![1], vec![4]], s: vec![0], t: vec![4], ..e() },
+        // hyperedge whose source and target lists share a node among others
+        M { w: vec![0; 3], x: vec![10], src: vec![vec![0, 1]], tgt: vec![vec![2, 1]], s: vec![0], t: vec![2], ..e() },
+        // 2-cycle through binary hyperedges
+        M { w: vec![0; 4], x: vec![10, 11], src: vec![vec![0, 1], vec![2, 3]], tgt: vec![vec![2, 2], vec![3, 0]], ..e() },
+        // swap-like monogamous diagram with non-monotone interfaces
+        M { w: vec![0, 1, 0, 1], x: vec![10], src: vec![vec![1, 0]], tgt: vec![vec![3, 2]], s: vec![1, 0], t: vec![2, 3], ..e() },
+    ]
+}
+
+pub fn run(ctx: &mut Ctx) {
+    watchdog::start(&ctx.property, &ctx.tier, ctx.seed, ctx.replay.is_some());
+    if let Some((name, input)) = ctx.replay.clone() {
+        for (n, c) in CHECKS {
+            if *n == name {
+                c(ctx, &input);
+            }
+        }
+        watchdog::leave();
+        return;
+    }
+    let thorough = ctx.thorough();
+
+    // (a) corner cases
+    for m in corner_models().iter().chain(own_corners().iter()) {
+        all_checks(ctx, m);
+    }
+
+    // (b1) exhaustive hypergraphs (interfaces empty): acyclicity + degrees (+ monogamy, cheap)
+    for n in 0..=3usize {
+        let ls = lists(n, 2);
+        for k in 0..=2usize {
+            for_each_hypergraph(n, k, &ls, &mut |m| all_checks(ctx, m));
+        }
+    }
+    // simple digraphs (unary hyperedges): 3 arcs on <= 3 nodes (quick), 3 arcs on 4 nodes and 4 arcs on 3 nodes (thorough)
+    {
+        let cells: &[(usize, usize)] = if thorough { &[(2, 3), (3, 3), (4, 3), (3, 4)] } else { &[(2, 3), (3, 3)] };
+        for &(n, k) in cells {
+            let unary: Vec<Vec<usize>> = (0..n).map(|v| vec![v]).collect();
+            for_each_hypergraph(n, k, &unary, &mut |m| {
+                let input = json!({"m": m.json()});
+                chk_acyclic(ctx, &input);
+            });
+        }
+    }
+    // (b2) exhaustive open hypergraphs: monogamy with all interface lists
+    {
+        let cells: &[(usize, usize, usize, usize)] = if thorough {
+            // (nodes, edges, arity, interface length)
+            &[(0, 1, 0, 0), (1, 1, 2, 3), (1, 2, 1, 2), (2, 1, 2, 3), (2, 2, 2, 2), (3, 1, 2, 3), (3, 2, 1, 2)]
+        } else {
+            &[(0, 1, 0, 0), (1, 1, 2, 3), (1, 2, 1, 2), (2, 1, 2, 3), (2, 2, 1, 2), (3, 1, 2, 2), (3, 2, 1, 2)]
+        };
+        for &(n, kmax, ar, il) in cells {
+            let ls = lists(n, ar);
+            let ifs = lists(n, il);
+            for k in 0..=kmax {
+                let mut hs = vec![];
+                for_each_hypergraph(n, k, &ls, &mut |m| hs.push(m.clone()));
+                for h in &hs {
+                    for s in &ifs {
+                        for t in &ifs {
+                            let mut m = h.clone();
+                            m.s = s.clone();
+                            m.t = t.clone();
+                            chk_monogamous(ctx, &json!({"m": m.json()}));
+                        }
+                    }
+                }
+            }
+        }
+    }
+
+    // (c) seeded random cases, one family per corner of the quantification
+    let n = ctx.budget(6000, 300000);
+    for i in 0..n {
+        let m = match i % 6 {
+            0 => {
+                let b = [SMALL, MEDIUM, LARGE][ctx.rng.below(3)];
+                random_model(&mut ctx.rng, b)
+            }
+            1 | 2 => {
+                // monogamous by construction, then 0..2 small edits (near misses)
+                let mut m = gen_monogamous(&mut ctx.rng, 5);
+                let edits = ctx.rng.below(3);
+                for _ in 0..edits {
+                    mutate(&mut ctx.rng, &mut m);
+                }
+                m
+            }
+            3 => {
+                // acyclic by construction, then possibly one edit (back edge, self loop, ...)
+                let m = gen_dag(&mut ctx.rng, 8, 7, 3);
+                let mut m = scramble(&mut ctx.rng, &m);
+                if ctx.rng.chance(1, 2) {
+                    mutate(&mut ctx.rng, &mut m);
+                }
+                if ctx.rng.chance(1, 4) {
+                    let k = ctx.rng.below(3);
+                    m.w.extend(std::iter::repeat(0).take(k)); // isolated nodes
+                }
+                m
+            }
+            4 => gen_fat(&mut ctx.rng),
+            _ => {
+                let len = ctx.rng.range(1, 12);
+                let close = if ctx.rng.chance(1, 2) { Some(ctx.rng.below(len + 1)) } else { None };
+                let iso = ctx.rng.below(3);
+                let mult = ctx.rng.range(1, 3);
+                gen_chain(&mut ctx.rng, len, close, iso, mult)
+            }
+        };
+        all_checks(ctx, &m);
+    }
+
+    // long chains (the layering loop must run as many rounds as there are nodes), open or closed
+    let lens: &[usize] = if thorough { &[16, 31, 32, 33, 48, 64, 65, 100] } else { &[17, 33, 64] };
+    for &len in lens {
+        for close in [None, Some(0), Some(len), Some(len / 2)] {
+            for iso in [0usize, 2] {
+                let m = gen_chain(&mut ctx.rng, len, close, iso, 1);
+                all_checks(ctx, &m);
+            }
+        }
+        // star: one node with `len` parallel consumers, and one hyperedge with `len` repeated incidences
+        let star = M { w: vec![0; 2], x: vec![10; len], src: vec![vec![0]; len], tgt: vec![vec![1]; len], s: vec![0], t: vec![1] };
+        all_checks(ctx, &star);
+        let rep = M { w: vec![0; 3], x: vec![10], src: vec![vec![0; len]], tgt: vec![vec![1; len]], s: vec![0], t: vec![1, 2] };
+        all_checks(ctx, &rep);
+    }
+
+    watchdog::leave();
+    ctx.notes.push(format!(
+        "rule: one plain model per input, all three queries (Hypergraph::is_acyclic + OpenHypergraph::is_acyclic, is_monogamous, in_degree/out_degree for every node) on the real strict structure. \
+         exhaustive: all hypergraphs with <=3 nodes, <=2 hyperedges, source/target lists of length <=2; unary digraphs with 3 arcs on <=3 nodes (thorough: 3 arcs on 4 nodes, 4 arcs on 3 nodes); \
+         monogamy over all interface lists: length <=3 for <=2 nodes/1 hyperedge (lists <=2), length <=2 for 2 nodes/2 unary hyperedges, 3 nodes/1 hyperedge (lists <=2), 3 nodes/2 unary hyperedges (thorough: 2 nodes/2 hyperedges with lists <=2, 3 nodes/1 hyperedge with interfaces <=3). random: models up to 8 nodes/6 edges/arity 4, monogamous-by-construction diagrams (<=5 ops + feedback wires) with 0-2 edits, \
+         ranked DAGs with one edit, multiplicity up to 7x7 per hyperedge between <=3 nodes, chains up to 12 (random) and {} (fixed) nodes closed or open, stars/repetition up to that size. \
+         non-trivial: acyclic = some hyperedge has a source and a target; monogamous = at least one node; degrees = a node and an incidence. \
+         oracle outcomes: acyclic true {} / false {}; monogamous true {}; inputs where inclusive and exclusive reading of the monogamy clause differ: {} (exclusive reading required, as in the library's doc comment and own tests). \
+         release profile has overflow-checks and debug-assertions on, so debug-only panics are visible here.",
+        lens.last().unwrap() + 1,
+        ACYC_TRUE.load(Ordering::Relaxed),
+        ACYC_FALSE.load(Ordering::Relaxed),
+        MONO_TRUE.load(Ordering::Relaxed),
+        AMBIGUOUS.load(Ordering::Relaxed),
+    ));
+}
